@@ -1286,3 +1286,94 @@ mod tests {
         );
     }
 }
+
+/// Verification hooks (`--cfg nextest_verif`): `ExecutionStatuses::{new, describe}` over plain
+/// lists of attempt results.
+#[cfg(nextest_verif)]
+pub mod verif_events {
+    use super::*;
+    use crate::test_output::{ChildOutput, ChildSplitOutput};
+
+    /// What `ExecutionStatuses::describe` returned, with each referenced status identified by
+    /// its 1-based attempt number.
+    #[derive(Clone, Debug, Eq, PartialEq)]
+    pub enum Described {
+        /// `ExecutionDescription::Success`.
+        Success {
+            /// Attempt number of `single_status`.
+            single: usize,
+        },
+        /// `ExecutionDescription::Flaky`.
+        Flaky {
+            /// Attempt number of `last_status`.
+            last: usize,
+            /// Attempt numbers of `prior_statuses`.
+            prior: Vec<usize>,
+        },
+        /// `ExecutionDescription::Failure`.
+        Failure {
+            /// Attempt number of `first_status`.
+            first: usize,
+            /// Attempt number of `last_status`.
+            last: usize,
+            /// Attempt numbers of `retries`.
+            retries: Vec<usize>,
+        },
+    }
+
+    /// Builds an `ExecutionStatuses` whose i-th status has result `results[i]` and attempt number
+    /// `i + 1`, and returns what `describe` and `last_status` say about it.
+    ///
+    /// Panics (like the real code) if `results` is empty.
+    pub fn describe_results(results: &[ExecutionResult]) -> (Described, usize, ExecutionResult) {
+        let total_attempts = results.len();
+        let statuses = results
+            .iter()
+            .enumerate()
+            .map(|(i, result)| ExecuteStatus {
+                retry_data: RetryData {
+                    attempt: i + 1,
+                    total_attempts,
+                },
+                output: ChildExecutionOutput::Output {
+                    result: Some(*result),
+                    output: ChildOutput::Split(ChildSplitOutput {
+                        stdout: None,
+                        stderr: None,
+                    }),
+                    errors: None,
+                },
+                result: *result,
+                start_time: DateTime::<FixedOffset>::default(),
+                time_taken: Duration::ZERO,
+                is_slow: false,
+                delay_before_start: Duration::ZERO,
+            })
+            .collect();
+        let statuses = ExecutionStatuses::new(statuses);
+        let attempts = |s: &[ExecuteStatus]| s.iter().map(|s| s.retry_data.attempt).collect();
+        let described = match statuses.describe() {
+            ExecutionDescription::Success { single_status } => Described::Success {
+                single: single_status.retry_data.attempt,
+            },
+            ExecutionDescription::Flaky {
+                last_status,
+                prior_statuses,
+            } => Described::Flaky {
+                last: last_status.retry_data.attempt,
+                prior: attempts(prior_statuses),
+            },
+            ExecutionDescription::Failure {
+                first_status,
+                last_status,
+                retries,
+            } => Described::Failure {
+                first: first_status.retry_data.attempt,
+                last: last_status.retry_data.attempt,
+                retries: attempts(retries),
+            },
+        };
+        let last = statuses.last_status();
+        (described, last.retry_data.attempt, last.result)
+    }
+}
